@@ -76,6 +76,11 @@ func (s *MergeExp) HasRef() bool {
 	if s.ForkNode != nil {
 		return true
 	}
+	if s.MergeOver != nil && !s.MergeOver.KnownLength() {
+		// Even if the merged value is constant, the number of copies of
+		// it is only known once the mapped-over collection is.
+		return true
+	}
 	return s.Value.HasRef()
 }
 
@@ -121,8 +126,28 @@ func (m *MergeExp) FindRefs() []*RefExp {
 			}
 		}
 		refs = append(refs, m.ForkNode)
+	} else if len(refs) == 0 && m.MergeOver != nil && !m.MergeOver.KnownLength() {
+		// The value is constant, but the number of copies of it depends on
+		// the collection which was mapped over.
+		refs = mapSourceRefs(m.MergeOver)
 	}
 	return refs
+}
+
+// mapSourceRefs returns the references which determine the length or keys of
+// a map call source.
+func mapSourceRefs(src MapCallSource) []*RefExp {
+	switch src := src.(type) {
+	case *BoundReference:
+		if src.Exp != nil {
+			return []*RefExp{src.Exp}
+		}
+	case *MapCallSet:
+		return mapSourceRefs(src.Master)
+	case Exp:
+		return src.FindRefs()
+	}
+	return nil
 }
 
 func (m *MergeExp) filter(t Type, lookup *TypeLookup) (Exp, error) {
